@@ -191,6 +191,6 @@ def rule_miette(ctx, fx, config):
                 with f.deep():
                     a = f.sym_operand(t["args"][1])
                 ctx.check(sym_contains(a, lambda x: x[0] == "call" and x[1] == SAN), "MIETTE", "C17:MIETTE:source", "the source handed to miette is sanitised", "the miette source is not sanitised", config, ctx.where(f, b))
-    ctx.floor("MIETTE.messages", n, 3, config)
+    ctx.floor("MIETTE.messages", n, 2, config)
     sm = fx.fn("miette::safe_message")
     ctx.check(any(fx.callee(t) == SAN for b, t in sm.calls()), "MIETTE", "C17:MIETTE:safe_message", "safe_message sanitises the formatted message", "safe_message no longer sanitises", config, ctx.where(sm))
